@@ -366,25 +366,40 @@ def case_approx(log, n, defaults=False, signed=False):
             if exc is not None:
                 goal = z3.Or([z3.BoolVal(False)] + [z3.And(m[a], m[b]) for a in range(n) for b in range(a + 1, n)])
                 v = prove_formula(goal, "%s raised ValueError: at least two stored points are within tolerance" % desc)
-                decide(v, key="EKO.approx:ambiguous", replay=(MOD, "replay_approx", kw), sampler=_approx_sampler(n), nrandom=2)
+                decide(v, key="EKO.approx:ambiguous", replay=(MOD, "replay_approx", kw), sampler=_approx_sampler(n), nrandom=2, candidates=_approx_candidates(n, defaults))
             elif got is None:
                 v = prove_formula(z3.And([z3.BoolVal(True)] + [z3.Not(mi) for mi in m]), "%s returned None: no stored point is within tolerance" % desc)
-                decide(v, key="EKO.approx:none", replay=(MOD, "replay_approx", kw), sampler=_approx_sampler(n), nrandom=2)
+                decide(v, key="EKO.approx:none", replay=(MOD, "replay_approx", kw), sampler=_approx_sampler(n), nrandom=2, candidates=_approx_candidates(n, defaults))
             else:
-                hit = [i for i in range(n) if got[0] is ss[i]]
-                if len(hit) != 1 or got[1] != 4 or not same[hit[0]]:
+                # the returned scale equals a stored scale (decided by the solver: the code may hand back
+                # the stored object or an equal value, e.g. the query itself on an exact match)
+                if not isinstance(got, tuple) or len(got) != 2 or got[1] != 4:
                     goal = z3.BoolVal(False)
                 else:
-                    i = hit[0]
-                    goal = z3.And([m[i]] + [z3.Not(m[k]) for k in range(n) if k != i])
+                    goal = z3.Or([z3.BoolVal(False)] + [z3.And([zeq(got[0], ss[i]), m[i]] + [z3.Not(m[k]) for k in range(n) if k != i]) for i in range(n)])
                 v = prove_formula(goal, "%s returned a point: it is a stored point, within tolerance, and the only one" % desc)
-                decide(v, key="EKO.approx:unique", replay=(MOD, "replay_approx", kw), sampler=_approx_sampler(n), nrandom=2)
+                decide(v, key="EKO.approx:unique", replay=(MOD, "replay_approx", kw), sampler=_approx_sampler(n), nrandom=2, candidates=_approx_candidates(n, defaults))
             log.twin("tolerances and distinct scales")
             log.collect_ctx()
 
     _r, pm = explore(run, max_paths=20000)
     log.path_stats(pm)
     decide.finish()
+
+
+def _approx_candidates(n, defaults):
+    """query exactly on a stored point, the next stored point inside / outside the tolerance."""
+    out = []
+    for d1 in ((Fraction(1, 100000) if defaults else Fraction(1, 2)), Fraction(50)):
+        pt = {"x": Fraction(100), "rtol": Fraction(1, 100), "atol": Fraction(1, 10)}
+        for i in range(n):
+            pt["s%d" % i] = [Fraction(100), Fraction(100) + d1, Fraction(300)][i]
+        out.append(pt)
+        if n >= 2:
+            q = dict(pt)
+            q["s0"], q["s1"] = pt["s1"], pt["s0"]
+            out.append(q)
+    return out
 
 
 def _approx_sampler(n):
